@@ -1,7 +1,7 @@
 (* Extract.v - extraction of the executable model, views and checkers to OCaml.
    Directives: only those of ExtrOcamlBasic (bool, option, unit, list, prod, sumbool, sumor mapped to
    the OCaml types; andb/orb/negb inlined).  N, positive, nat stay the extracted inductive types. *)
-Require Import RP.Model.Base RP.Model.Packet RP.Model.Events RP.Glue.Wire RP.Glue.StreamEV RP.Glue.StreamDEC RP.Glue.StreamFrame RP.Glue.StreamPacket RP.Glue.StreamLink RP.Glue.StreamProto.
+Require Import RP.Model.Base RP.Model.Packet RP.Model.Events RP.Glue.Wire RP.Glue.StreamEV RP.Glue.StreamDEC RP.Glue.StreamFrame RP.Glue.StreamPacket RP.Glue.StreamLink RP.Glue.StreamProto RP.Glue.StreamE2E.
 Require Import Extraction ExtrOcamlBasic.
 Extraction Language OCaml.
 Extraction "rp.ml" run_EV view_C03 ok_C03
@@ -10,4 +10,5 @@ Extraction "rp.ml" run_EV view_C03 ok_C03
   view_C08_CAE ok_C08_CAE view_C08_CAD ok_C08_CAD
   run_FRG view_C10 ok_C10 run_REA view_C02 ok_C02 run_BLD view_C07 ok_C07
   run_RCV run_LNK run_SND view_C06 ok_C06 view_C13 ok_C13 view_C19 ok_C19 view_C14 ok_C14
-  run_PRO run_EXC view_C15 ok_C15 view_C16 ok_C16 view_C17 ok_C17 view_C18 ok_C18.
+  run_PRO run_EXC view_C15 ok_C15 view_C16 ok_C16 view_C17 ok_C17 view_C18 ok_C18
+  run_E2E view_C01 ok_C01.
